@@ -119,7 +119,7 @@ var c13marshal = Register("C13", "C13.marshal", func(a c13MarshalArgs) *Violatio
 		return violf("MarshalJSON(%s) = %q: digits %q, want %q", n, abbr(s), written, wantDigits)
 	}
 	// direct round trip
-	u := ref.FromBits(0x3040000000000000, 77)
+	u := prior(hashString(s))
 	if err := u.UnmarshalJSON(b); err != nil || !u.Equal(d) || u.Signbit() != d.Signbit() {
 		return violf("UnmarshalJSON(MarshalJSON(%s) = %q) = %s, %v", n, abbr(s), ref.Decode(u), err)
 	}
@@ -160,7 +160,10 @@ var c13unmarshal = Register("C13", "C13.unmarshal", func(a c13UnmarshalArgs) *Vi
 	st := S("C13", "unmarshal")
 	st.Eval(1)
 	data := []byte(a.Data)
-	sentinel := ref.FromBits(0x3040000000000000, 424242)
+	sentinel := prior(hashString(a.Data) + uint64(a.Mode))
+	if a.Data == "null" && sentinel == (d128.Decimal{}) {
+		sentinel = ref.FromBits(0x3040000000000000, 424242) // "untouched" is only observable on a non-zero receiver
+	}
 	u := sentinel
 	mode := ref.Modes[int(a.Mode)%6]
 	oldMode := d128.DefaultRoundingMode
